@@ -178,7 +178,8 @@ pub fn random_cfg(rng: &mut impl Rng, profile: &str) -> Cfg {
         fp: rng.random_range(0..100) < 40,
         max_tx: *wpick(rng, &[(1, 0usize), (3, 1), (3, 2), (3, 3), (2, 4), (3, 10)]),
         order: rng.random_range(0..6),
-        user: "alice".to_string(),
+        // user names: ASCII, one with a (precomposed) non-ASCII letter, a one-letter name
+        user: pick(rng, &["alice", "alice", "ali\u{e9}ce", "x"]).to_string(),
         // sometimes a password that OpaqueString changes (NO-BREAK SPACE -> SPACE)
         // ... or that is not in normalization form C (e + COMBINING ACUTE ACCENT -> U+00E9)
         password: pick(rng, &["s3cret-pass", "s3cret-pass", "s3cret\u{00A0}pass", "s3cre\u{301}t-pass"]).to_string(),
